@@ -2776,6 +2776,10 @@ func (d *Data) ServeHTTP(uuid dvid.UUID, ctx *datastore.VersionedCtx, w http.Res
 		fmt.Fprintln(w, jsonStr)
 
 	case "extents":
+		if action != "post" {
+			server.BadRequest(w, r, "extents endpoint only supports POST HTTP verb")
+			return
+		}
 		jsonBytes, err := ioutil.ReadAll(r.Body)
 		if err != nil {
 			server.BadRequest(w, r, err)
@@ -2787,6 +2791,10 @@ func (d *Data) ServeHTTP(uuid dvid.UUID, ctx *datastore.VersionedCtx, w http.Res
 		}
 
 	case "resolution":
+		if action != "post" {
+			server.BadRequest(w, r, "resolution endpoint only supports POST HTTP verb")
+			return
+		}
 		jsonBytes, err := ioutil.ReadAll(r.Body)
 		if err != nil {
 			server.BadRequest(w, r, err)
